@@ -154,7 +154,8 @@ func (vfs *MemFS) Chown(name string, uid, gid int) error {
 func (vfs *MemFS) Chtimes(name string, _, mtime time.Time) error {
 	const op = "chtimes"
 
-	_, child, _, err := vfs.searchNode(name, slmLstat)
+	// a symbolic link is followed, as os.Chtimes does.
+	_, child, _, err := vfs.searchNode(name, slmEval)
 	if err != vfs.err.FileExists || child == nil {
 		return &fs.PathError{Op: op, Path: name, Err: err}
 	}
